@@ -20,8 +20,12 @@ Values(w) == { <<1>> \o Zeros(w - 1), [i \in 1..w |-> Mod(i, 2)], SubSeq(Distinc
 
 IntFields == { [k |-> "int", w |-> w, signed |-> s, order |-> o, value |-> v] :
                   w \in Widths, s \in {0, 1}, o \in Orders, v \in UNION {Values(x) : x \in Widths} }
+Bytes(bs) == Flatten([k \in 1..Len(bs) |-> FromNat(bs[k], 8)])
+\* 1.5 and -2.25 as binary32 / binary64
+FloatFields == { [k |-> "flt", w |-> Len(v), signed |-> 0, order |-> o, value |-> v] : o \in Orders,
+                   v \in { Bytes(<<63, 192, 0, 0>>), Bytes(<<192, 16, 0, 0>>), Bytes(<<63, 248, 0, 0, 0, 0, 0, 0>>), Bytes(<<192, 2, 0, 0, 0, 0, 0, 0>>) } }
 Field(f) == f.k # "int" \/ (Len(f.value) = f.w /\ (f.signed = 1 \/ f.w <= 127))
-Fields == { f \in IntFields : Field(f) }
+Fields == { f \in IntFields : Field(f) } \cup FloatFields
           \cup { [k |-> "raw", w |-> Len(b), signed |-> 0, order |-> "big", value |-> b] : b \in {<<1>>, <<1,0,1>>, <<0,1,1,1,0,0,1>>} }
           \cup { [k |-> "str", w |-> 16, signed |-> 0, order |-> "big", value |-> <<0,1,0,0,0,0,0,1, 0,1,1,1,1,0,1,0>>] }      \* "Az"
           \cup { [k |-> "bytes", w |-> 16, signed |-> 0, order |-> "big", value |-> <<0,0,0,0,0,0,0,1, 1,1,1,1,1,1,1,1>>] }    \* [ 1 255 ]
